@@ -43,7 +43,7 @@ def cases(tier, seed):
                             "budget": 500 if tier == "quick" else None})
     for entry in ("sync", "pool", "f_return", "f_return_error", "f_return_cancelled"):
         out.append({"name": "fut.simple/%s" % entry, "kind": "simple", "entry": entry})
-    nf = 24 if tier == "quick" else 300
+    nf = 24 if tier == "quick" else 2000
     for i in range(nf):
         out.append({"name": "fut.fuzz/%d" % i, "kind": "fuzz", "idx": i, "n": 20 if tier == "quick" else 40})
     for entry in EXEC_ENTRIES[:7] + F_ENTRIES:
